@@ -116,14 +116,22 @@ func (a *setvarFn) Evaluate(r plugintypes.RuleMetadata, tx plugintypes.Transacti
 		Str("var_value", value).
 		Int("rule_id", r.ID()).
 		Msg("Action evaluated")
-	a.evaluateTxCollection(r, tx, strings.ToLower(key), value)
+	// Whether this is arithmetic (+N / -N) is decided by the action as written, not by what a
+	// macro happens to expand to: setvar:tx.a=%{tx.b} stays an assignment when tx.b is "-3".
+	arithmetic := false
+	if a.value != nil {
+		if raw := a.value.String(); len(raw) > 0 && (raw[0] == '+' || raw[0] == '-') {
+			arithmetic = true
+		}
+	}
+	a.evaluateTxCollection(r, tx, strings.ToLower(key), value, arithmetic)
 }
 
 func (a *setvarFn) Type() plugintypes.ActionType {
 	return plugintypes.ActionTypeNondisruptive
 }
 
-func (a *setvarFn) evaluateTxCollection(r plugintypes.RuleMetadata, tx plugintypes.TransactionState, key string, value string) {
+func (a *setvarFn) evaluateTxCollection(r plugintypes.RuleMetadata, tx plugintypes.TransactionState, key string, value string, arithmetic bool) {
 	var col collection.Map
 	if c, ok := tx.Collection(a.collection).(collection.Map); !ok {
 		tx.DebugLogger().Error().Msg("collection in setvar is not a map")
@@ -150,7 +158,7 @@ func (a *setvarFn) evaluateTxCollection(r plugintypes.RuleMetadata, tx plugintyp
 		// if nothing to input
 		col.Set(key, []string{""})
 	// Check if this could be an arithemetic operation. If it is followed by a number, it will be treated as an arithmetic operation. Otherwise, it will be treated as a string.
-	case value[0] == '+', value[0] == '-':
+	case arithmetic && (value[0] == '+' || value[0] == '-'):
 		val := 0
 		if len(value) > 1 {
 			val, err = strconv.Atoi(value[1:])
